@@ -464,14 +464,14 @@ def c10Eval : PropEval := fun i pre post =>
     match C10.Field.all.find? (fun f => !fp.contains f && fieldItems f pre != fieldItems f post) with
     | some f => some (i.str ++ " changed " ++ fieldName f ++ ", which is outside its documented operands and results")
     | none =>
-      if C10.operandsMet i pre && !C10.guardFails i pre then none
+      if C10.operandsMet i pre && !(C10.guardFails i pre || C10.randGuardFails i pre) then none
       else
         -- an operand is missing: nothing may be pushed or created
         match C10.Field.all.find? (fun f =>
             let a := fieldItems f pre
             let b := fieldItems f post
             if isStackField f then !(b.length ≤ a.length && a.drop (a.length - b.length) == b) else a != b) with
-        | some f => some (i.str ++ (if C10.operandsMet i pre then " met a failing documented guard (zero divisor) but " else " lacks an operand but ") ++ fieldName f ++ " was not merely popped")
+        | some f => some (i.str ++ (if C10.operandsMet i pre then " met a failing documented guard (zero divisor; size, range or parameter of a RAND instruction) but " else " lacks an operand but ") ++ fieldName f ++ " was not merely popped")
         | none => none
 
 /-- C15: one step may grow the state only by a modest function of its size -/
@@ -483,7 +483,7 @@ def c15Eval : PropEval := fun i pre post =>
     if w' ≤ C15.growthBound i w then none
     else if i == .code .rand &&
         (match pre.int with
-         | n :: _ => w' > w + 64 * (min (i32Abs n).toInt.natAbs (i32Abs pre.cfg.maxPointsRand).toInt.natAbs) + 16
+         | n :: _ => w' + 1 > w + max (C15.randLimit pre n) 1      -- theorem C15.coderand_growth, exactly
          | [] => true) then
       -- NOT the recorded finding K05 (work sized by the operand INSIDE the configured maximum): the item is larger
       -- than min(|operand|, |configured maximum|) points allow
@@ -600,7 +600,8 @@ def handleUnreg : List Sx → String
     match decState pre, decNat nid, decObs post with
     | some pre, some nid, some obs =>
       let pre := { pre with nextId := nid }
-      let m := if name == "INTVECTOR.*" then semIntVecMul pre else semIntVecDiv pre
+      let m := if name == "INTVECTOR.*" then semIntVecMul pre
+        else if name == "INPUT.FLUSH" then semInputFlush pre else semIntVecDiv pre
       let ms := encState m
       let os := match obs with
         | some o => encState o
@@ -610,6 +611,10 @@ def handleUnreg : List Sx → String
       let pf := match obs with
         | none => " PROPFAIL C01 implementation panicked PROPFAIL C09 " ++ name ++ " crashed instead of producing the documented vector or nothing"
         | some o =>
+          if name == "INPUT.FLUSH" then
+            (if o.input.items.isEmpty && encState { o with input := pre.input } == encState pre then ""
+             else " PROPFAIL C17 INPUT.FLUSH must empty the INPUT queue and touch nothing else")
+          else
           (match pre.ivec, pre.int with
            | top :: second :: l, off :: _ =>
              let zeroUsed := top.zipIdx.any fun (t, i) =>
